@@ -84,8 +84,9 @@ func (e *fnEnc) call(in ssa.Instruction, cc *ssa.CallCommon) []Term {
 			res := mkRes("r." + shortKey(key))
 			callee := cc.StaticCallee()
 			inRepo := callee != nil && e.V.P.repoPkg(callee) != nil
-			if inRepo && e.canInline(callee, key) {
-				if r, ok := e.inline(callee, key, args, pos); ok {
+			mc, _ := cc.Value.(*ssa.MakeClosure)
+			if inRepo && e.canInlineWith(callee, key, mc) {
+				if r, ok := e.inlineWith(callee, key, args, pos, mc); ok {
 					return r
 				}
 			}
